@@ -30,7 +30,7 @@ m = {
               "baseline_off_cmd": "cd /repo && /venv/bin/python -m pytest -ra -q -p no:cacheprovider --timeout=900 --continue-on-collection-errors",
               "source_commits": [], "add_only": True},
     "engines": [{"name": "pyvc", "path": "pyvc/", "serves_properties": [c["property_id"] for c in checks],
-                 "kind_free_text": "home-built VC generator for a Python subset (ast -> z3, cvc5 on unknown), sidecar contracts, replay + bounded stand-ins on the real code under /venv/bin/python"}],
+                 "kind_free_text": "home-built VC generator for a Python subset (ast -> z3; on unknown: own finite ground-instantiation back end + quantifier-free z3, cvc5, z3 seed portfolio), sidecar contracts, replay + bounded stand-ins on the real code under /venv/bin/python"}],
     "checks": checks,
     "not_applicable": na,
     "notes": "Exit codes: 0 held (UNDECIDED lines are not alarms), 1 VIOLATION, 3 checker error. known_findings.json lists recorded/fixed defects.",
